@@ -85,6 +85,7 @@ type Contract struct {
 	Uses     []string // axiom groups this function's proofs may use
 	TaggedOnly []string // properties for which only explicitly tagged clauses of this function count
 	NoNil    bool     // rte.nil obligations are not generated (stated assumption)
+	Sweep    bool     // zero-annotation C07 sweep: only run-time-error (and invariant) obligations; callee preconditions assumed
 	NoRte    bool     // no run-time-error obligations at all for this function (only its contract clauses are claimed)
 	Lemma    bool     // ghost client (lemma) function
 }
@@ -218,6 +219,11 @@ func (sp *Spec) loadFile(path string, pkg string) error {
 			cur.NoNil = true
 		case "norte":
 			cur.NoRte = true
+		case "sweep":
+			cur.Sweep = true
+			cur.NoNil = true
+		case "note":
+			// free-text remark
 		case "tagged-only":
 			cur.TaggedOnly = append(cur.TaggedOnly, strings.Fields(strings.ReplaceAll(rest, ",", " "))...)
 		case "mode":
